@@ -37,14 +37,14 @@ def Value.tryAdd : Value α → Value α → Except (Value α) (Value α)
   | .range _ _, .text t => .error (.text t)
 
 /-- `IncompatibleUnits` -/
-inductive Incompat where
+inductive UnitIncompat where
   | missingUnit (found : Str) (lhs : Bool)
   | differentPhysicalQuantities (a b : PhysQ)
   | unknownDifferentUnits (a b : Str)
 deriving Repr, DecidableEq, Inhabited
 
 /-- `Quantity::compatible_unit`: the unit to convert the right operand to, if any -/
-def compatibleUnit (c : Converter α) (l r : SQuantity α) : Except Incompat (Option (Unit α)) :=
+def qCompatibleUnit (c : Converter α) (l r : SQuantity α) : Except UnitIncompat (Option (Unit α)) :=
   match l.unit, r.unit with
   | none, none => .ok none
   | none, some u => .error (.missingUnit u false)
@@ -57,7 +57,7 @@ def compatibleUnit (c : Converter α) (l r : SQuantity α) : Except Incompat (Op
 
 /-- `QuantityAddError` -/
 inductive AddErr (α : Type) where
-  | incompatible (e : Incompat)
+  | incompatible (e : UnitIncompat)
   | textValue (v : Value α)
   | convert (e : ConvErr)
 
@@ -69,7 +69,7 @@ def convertRhs (c : Converter α) (r : SQuantity α) : Option (Unit α) →
 
 /-- `ScaledQuantity::try_add` -/
 def qTryAdd (c : Converter α) (l r : SQuantity α) : Except (AddErr α) (SQuantity α) :=
-  match compatibleUnit c l r with
+  match qCompatibleUnit c l r with
   | .error e => .error (.incompatible e)
   | .ok convertTo =>
     match (convertRhs c r convertTo).2 with
